@@ -97,10 +97,14 @@ func init() { solver.RegisterHint(sqHint) }
 
 type wideCircuit struct {
 	X   [160]frontend.Variable
+	B   [160]frontend.Variable // 160 independent boolean assertions: one wide level of pure checks
 	Out frontend.Variable `gnark:",public"`
 }
 
 func (c *wideCircuit) Define(api frontend.API) error {
+	for i := range c.B {
+		api.AssertIsBoolean(c.B[i])
+	}
 	lvl := make([]frontend.Variable, len(c.X))
 	for i := range c.X {
 		lvl[i] = api.Mul(c.X[i], c.X[(i+1)%len(c.X)])
@@ -142,10 +146,18 @@ func wideWitnesses(rng *rand.Rand, p *big.Int, n int) []Wit {
 			acc.Add(acc, new(big.Int).Mul(lvl[i], lvl[(i+7)%160]))
 		}
 		acc.Mod(acc, p)
+		for i := range a.B {
+			a.B[i] = rng.IntN(2)
+		}
 		valid, name := true, "valid"
-		if k%3 == 2 {
+		switch k % 4 {
+		case 2:
 			acc.Add(acc, big.NewInt(1)).Mod(acc, p)
 			valid, name = false, "wrong-output"
+		case 3:
+			// several assertions of the same (parallel) level violated at once, far apart
+			a.B[3], a.B[81], a.B[157] = 2, 3, 5
+			valid, name = false, "three-violations-in-one-level"
 		}
 		a.Out = acc
 		ws = append(ws, Wit{name, &a, valid})
